@@ -199,6 +199,7 @@ PROPS.update({
         "quotas": {
             "all four scenarios": lambda m: all(any(k.startswith(p) for k in m["hist"].get("fault_points", {})) for p in ("encode:", "write_blocks:", "update:", "decode:")),
             "in-place and rebuild update paths": lambda m: keys(m, "update_path") == 2,
+            "equal-size, shrinking and growing edits": lambda m: keys(m, "update_size_relation") == 3,
             ">= 50000 faulted runs": lambda m: m["evaluations"] >= 50000,
         },
     },
@@ -222,7 +223,7 @@ PROPS.update({
         "level": "exploration",
         "profiles": ["release", "checked"],
         "budget": {"quick": 12, "thorough": 120},
-        "claim": "Full cross product of boundary/interior values: 17 bit depths x 12 channel counts x 9 sample rates x 114 option sets (block size, max LPC order, max partition order, padding incl. 0/max/max+1) over the three file writers with and without a declared total, plus declared-total boundary values and a FlacStreamWriter::write parameter grid. Oracle: never a panic (both profiles); every documented-legal combination constructs AND works (a short signal is written, finalized and round-trips). Declared-length automaton: random (declared N, written M, block size, 1-5 write calls, front-end) histories: M>N => some call fails and the overall result is never Ok; M<N => finalize fails; M==N => Ok and the file carries N; undeclared => STREAMINFO total == written.",
+        "claim": "Full cross product of boundary/interior values: 17 bit depths x 12 channel counts x 13 sample rates x 114 option sets (block size, max LPC order, max partition order, padding incl. 0/max/max+1) over the three file writers with and without a declared total, plus declared-total boundary values and a FlacStreamWriter::write parameter grid. Oracle: never a panic (both profiles); every documented-legal combination constructs AND works (a short signal is written, finalized and round-trips). Declared-length automaton: random (declared N, written M, block size, 1-5 write calls, front-end) histories: M>N => some call fails and the overall result is never Ok; M<N => finalize fails; M==N => Ok and the file carries N; undeclared => STREAMINFO total == written.",
         "note": "the grid is enumerated completely in the thorough tier; the quick tier thins the option sets for out-of-range stream parameters",
         "technique": "runtime monitoring over an enumerated configuration grid + contract automaton over write histories",
         "design_ref": "DESIGN.md section 4 C15",
